@@ -536,6 +536,21 @@ def _generate(rng, index, tier, extra):
         path, raw_hex, at, size = shapes[(index // len(LP_ITEMS)) % len(shapes)]
         return {'kind': 'lpscale', 'cls': path, 'hex': raw_hex, 'at': at, 'size': size,
                 'item': LP_ITEMS[index % len(LP_ITEMS)], 'quick': tier == 'quick'}
+    if phase == 'unitsweep':
+        import random as _random
+        channels = workload.STREAM_CHANNELS
+        channel = channels[index % len(channels)]
+        rng_unit = _random.Random(7919 * index + 3)
+        unit = b''
+        for _ in range(40):
+            try:
+                candidate = channel.make(rng_unit)
+            except workload.SenderRejected:
+                continue
+            if len(candidate) <= 64:
+                unit = candidate
+                break
+        return {'kind': 'unitsweep', 'channel': channel.name, 'hex': unit.hex()}
     if phase == 'whole':
         path, raw_hex = whole_shapes()[index % len(whole_shapes())]
         return {'kind': 'wholescale', 'cls': path, 'hex': raw_hex, 'quick': tier == 'quick'}
@@ -604,6 +619,8 @@ def execute(doc):
         _exec_lpscale(doc, res)
     elif kind == 'wholescale':
         _exec_wholescale(doc, res)
+    elif kind == 'unitsweep':
+        _exec_unitsweep(doc, res)
     else:
         raise core.HarnessError('unknown schedule kind %r' % kind)
     return res
@@ -780,6 +797,35 @@ def _exec_autoscale(doc, res):
     res.stats['scale.max_exponent_x100_bucket_%d' % int(max(tail or [0]) * 10)] += 1
 
 
+def _exec_unitsweep(doc, res):
+    """A small unit with one of its first 12 octets overwritten (all 256 values: types, message codes, versions),
+    repeated 300 times back to back: whatever kind of unit that makes it, reading the first one stays cheap and flat."""
+    channel = workload.CHANNEL_BY_NAME[doc['channel']]
+    cls = core.get_class(channel.cls_path)
+    unit = bytes.fromhex(doc['hex'])
+    only = doc.get('only')
+    plan = only if only is not None else [[offset, value] for offset in range(min(12, len(unit))) for value in range(256)
+                                          if unit[offset] != value]
+    cases = 0
+    for offset, value in plan:
+        mutated = unit[:offset] + bytes((value, )) + unit[offset + 1:]
+        data = mutated * 300 + mutated[:1]
+        steps, stack, status = _measure(cls, 'parse_immutable', data)
+        before = len(res.violations)
+        _judge(res, cls.__name__, 'parse_immutable', len(data), steps, stack, status)
+        for violation in res.violations[before:]:
+            violation['case'] = [offset, value]
+        cases += 1
+        if len(res.violations) > 2:
+            break
+    res.sim_events += cases
+    res.stats['fault.set'] += cases
+    res.stats['unitsweep.cases'] += cases
+    res.stats['runs.unitsweep'] += 1
+    res.sched_sig = ('unitsweep', channel.name, len(unit))
+    res.nontrivial = bool(unit)
+
+
 def _exec_wholescale(doc, res):
     """One small accepted unit repeated back to back, plus the first octet of one more: the buffer a reader holds after
     a burst of minimal records.  Parsing the first unit must not work through (or recurse over) the rest."""
@@ -946,7 +992,7 @@ def shrink(doc, sig, budget):
         cand.update(changes)
         return core.has_sig(me, cand, sig)
 
-    if doc['kind'] == 'countsweep':
+    if doc['kind'] in ('countsweep', 'unitsweep'):
         result = core.guarded_execute(me, doc)
         for violation in result.violations:
             if violation['sig'] == sig and 'case' in violation:
@@ -980,9 +1026,11 @@ def check(tier, seed):
     nest = core.run_batch(me, seed, tier, len(nest_shapes()) * len(NEST_INNER), 600.0, {'phase': 'nest'}, chunk=1)
     lps = core.run_batch(me, seed, tier, len(lp_shapes()) * len(LP_ITEMS), 600.0, {'phase': 'lp'}, chunk=2)
     whole = core.run_batch(me, seed, tier, len(whole_shapes()), 600.0, {'phase': 'whole'}, chunk=4)
+    units = core.run_batch(me, seed, tier, len(workload.STREAM_CHANNELS) * (2 if tier == 'quick' else 8), 600.0,
+                           {'phase': 'unitsweep'}, chunk=1)
     fuzz = core.run_batch(me, seed, tier, n_runs, wall, extra)
     alloc = core.run_batch(me, seed, tier, n_alloc, 120.0, {'phase': 'alloc'})
-    batch = core.merge_batches([scale, auto, sweep, nest, lps, whole, fuzz, alloc, histories])
+    batch = core.merge_batches([scale, auto, sweep, nest, lps, whole, units, fuzz, alloc, histories])
     coverage = core.coverage_from_batch(
         batch, RULE, fault_kinds=wire.FAULT_KINDS,
         probes=('declared_length_over_2^24_with_little_data', 'scaled_input_over_16k', 'input_over_1k', 'depth_over_30'),
